@@ -224,6 +224,19 @@ func UseSites() []UseSite {
 		{Tag: "namesake var e.Mock2", Stmt: "var $v e.Mock2; _ = $v", Kind: UKNone, TONL: true, OnlyImporter: true},
 		{Tag: "namesake e.S{}.Reset()", Stmt: "e.S{}.Reset()", Kind: UKNone, TONL: true, OnlyImporter: true},
 		{Tag: "namesake e.HelperArg(e.Mock{})", Stmt: "e.HelperArg(e.Mock{})", Kind: UKNone, TONL: true, OnlyImporter: true},
+		// generic items, explicit instantiation, parenthesised callees
+		{Tag: "call HelperG(1) inferred", Stmt: "{q}HelperG(1)", Kind: UKFunc, TONL: true, Core: true},
+		{Tag: "call HelperG[int](1) instantiated", Stmt: "{q}HelperG[int](1)", Kind: UKFunc, TONL: true, Core: true},
+		{Tag: "call (Helper)() parenthesised", Stmt: "({q}Helper)()", Kind: UKFunc, TONL: true, Core: true},
+		{Tag: "call (HelperG[string])(..) parenthesised instantiated", Stmt: `({q}HelperG[string])("")`, Kind: UKFunc, TONL: true},
+		{Tag: "mcall (s.Reset)() parenthesised", Stmt: "(s.Reset)()", Kind: UKMethod, TONL: true, Core: true},
+		{Tag: "mcall gs.Reset() generic receiver", Stmt: "gs.Reset()", Kind: UKMethod, TONL: true, Core: true},
+		{Tag: "twin gs.Keep() generic receiver", Stmt: "gs.Keep()", Kind: UKNone, TONL: true},
+		{Tag: "twin PlainG[int](1)", Stmt: "{q}PlainG[int](1)", Kind: UKNone, TONL: true},
+		{Tag: "lit GMock[int]{}", Stmt: "_ = {q}GMock[int]{}", Kind: UKType, Type: "GMock", TONL: true, Core: true},
+		{Tag: "var m GMock[string]", Stmt: "var $v {q}GMock[string]; _ = $v", Kind: UKType, Type: "GMock", TONL: true},
+		{Tag: "lit elided []GMock[int]{{}}", Stmt: "_ = []{q}GMock[int]{{}}", Kind: UKType, Type: "GMock", TONL: true},
+		{Tag: "twin GPlain[int]{}", Stmt: "_ = {q}GPlain[int]{}", Kind: UKNone, TONL: true},
 		// reference kinds the @testonly statement does not list (judged for @packageonly only)
 		{Tag: "value Helper", Stmt: "_ = {q}Helper", Kind: UKFunc},
 		{Tag: "mvalue s.Reset", Stmt: "_ = s.Reset", Kind: UKMethod},
@@ -232,6 +245,8 @@ func UseSites() []UseSite {
 		{Tag: "assert x.(Mock)", Stmt: "_, _ = any(y).({q}Mock)", Kind: UKType, Type: "Mock"},
 		{Tag: "new(Mock)", Stmt: "_ = new({q}Mock)", Kind: UKType, Type: "Mock"},
 		{Tag: "var m []Mock", Stmt: "var $v []{q}Mock; _ = $v", Kind: UKType, Type: "Mock"},
+		{Tag: "value HelperG[int]", Stmt: "_ = {q}HelperG[int]", Kind: UKFunc},
+		{Tag: "new(GMock[int])", Stmt: "_ = new({q}GMock[int])", Kind: UKType, Type: "GMock"},
 	}
 }
 
@@ -382,6 +397,10 @@ func usePreludeD(w *lineWriter, m UseMix) {
 		m.ann(w, "", ItMock)
 		w.add("type Mock struct{ A int }")
 		w.add("")
+		w.add("// GMock is a generic test double carrying the same annotations.")
+		m.ann(w, "", ItMock)
+		w.add("type GMock[V any] struct{ A V }")
+		w.add("")
 	})
 	tMock2 := chunk(func() {
 		w.add("// Mock2 is another one.")
@@ -407,6 +426,13 @@ func usePreludeD(w *lineWriter, m UseMix) {
 		w.add("// S3 has its own annotated Reset (a second annotated method of the same name on another receiver).")
 		w.add("type S3 struct{ K int }")
 		w.add("")
+		w.add("// GS is a generic receiver type, GPlain a generic twin without annotations.")
+		w.add("type GS[V any] struct{ K V }")
+		w.add("")
+		w.add("func (GS[V]) Keep() {}")
+		w.add("")
+		w.add("type GPlain[V any] struct{ A V }")
+		w.add("")
 	})
 	fHelper := chunk(func() {
 		w.add("// Helper helps.")
@@ -419,6 +445,12 @@ func usePreludeD(w *lineWriter, m UseMix) {
 		w.add("")
 		w.add("func PlainF() int { return 0 }")
 		w.add("")
+		w.add("// HelperG is generic and carries the same annotations.")
+		m.ann(w, "", ItHelper)
+		w.add("func HelperG[V any](v V) int { return 0 }")
+		w.add("")
+		w.add("func PlainG[V any](v V) int { return 0 }")
+		w.add("")
 	})
 	mReset := chunk(func() {
 		w.add("// Reset resets.")
@@ -427,13 +459,17 @@ func usePreludeD(w *lineWriter, m UseMix) {
 		w.add("")
 		w.add("// Reset of S3 carries the same annotation.")
 		m.ann(w, "", ItReset)
-		w.add("func (s S3) Reset() {}")
+		w.add("func (S3) Reset() {}") // unnamed receiver
+		w.add("")
+		w.add("// Reset of the generic GS carries the same annotation.")
+		m.ann(w, "", ItReset)
+		w.add("func (g *GS[V]) Reset() {}")
 		w.add("")
 	})
 	mResetP := chunk(func() {
 		w.add("// ResetP resets through a pointer.")
 		m.ann(w, "", ItResetP)
-		w.add("func (s *S) ResetP() {}")
+		w.add("func (*S) ResetP() {}") // unnamed receiver
 		w.add("")
 		w.add("func (s S) Keep() {}")
 		w.add("")
@@ -564,7 +600,7 @@ func RenderUse(s *UseSpec) *UseRendered {
 			w.add(ind + "// an ordinary comment")
 		}
 	}
-	params := "(s " + q + "S, sp *" + q + "S, y int, s2 " + q + "S2, s3 " + q + "S3, em " + q + "Emb)"
+	params := "(s " + q + "S, sp *" + q + "S, y int, s2 " + q + "S2, s3 " + q + "S3, em " + q + "Emb, gs *" + q + "GS[int])"
 	for bi, b := range s.Blocks {
 		w := files[b.File]
 		pre(w, "")
